@@ -142,7 +142,7 @@ def uper_trace(v, pid, exe, vec, zoo, names, domain="uptrace", module="Trace_Upe
     return summ
 
 
-def uper_check(v, pid, classes, only_kind=None, with_stream=False, text="", with_trace=False):
+def uper_check(v, pid, classes, only_kind=None, with_stream=False, text="", with_trace=False, extra=None):
     """Common body of C01/C02/C03/C06: replay the zoo vectors, report the classes that concern this property."""
     t, zoo, vec = tlc_zoo(pid, v.tier)
     v.add_tlc("MC_Uper", t)
@@ -159,7 +159,7 @@ def uper_check(v, pid, classes, only_kind=None, with_stream=False, text="", with
         if r.get("summary") or r.get("summary_stream"):
             continue
         cls = r["class"]
-        if cls not in classes:
+        if cls not in classes and not (extra and cls != "stream" and extra(r, zoo)):
             continue
         if cls == "stream":
             if not with_stream:
